@@ -373,6 +373,16 @@ async def no_args_jobs(kind: str) -> dict:
         for args in (None, {}):
             n += 1
             await Job(name, args=args, id_=f"na{n}", _connection=conn).enqueue()
+
+    # arguments given as a pydantic model whose fields are partly left at the model's defaults: every entry of the model is an
+    # argument — the actor's own (different) defaults apply to none of them
+    class ArgsModel(pydantic.BaseModel):
+        a: int
+        b: str = "model-default"
+
+    for name in ("f_basic", "f_pydantic", "f_default"):
+        n += 1
+        await Job(name, args=ArgsModel(a=7), id_=f"na{n}", _connection=conn).enqueue()
     w = Worker(routers=[router, r2], handle_signals=[], messages_limit=n, _connection=conn)
     try:
         await asyncio.wait_for(w.run(), 30)
@@ -380,7 +390,7 @@ async def no_args_jobs(kind: str) -> dict:
     except asyncio.TimeoutError:
         finished = False
     await conn.disconnect()
-    return {"broker": kind, "enqueued": n, "seen": sorted(seen), "finished": finished}
+    return {"broker": kind, "enqueued": n, "seen": sorted(seen, key=repr), "finished": finished}
 
 
 def part_no_args(res: Result) -> None:
@@ -388,7 +398,9 @@ def part_no_args(res: Result) -> None:
         o = vtime.run(lambda loop, k=kind: no_args_jobs(k), budget=20_000_000)
         res.dist["no-args-jobs:" + kind] += o["enqueued"]
         res.note(("no-args", kind))
-        want = sorted([(t, "dflt-a", ("dflt", "b")) for t in ("basic", "pydantic", "default")] * 2)
+        want = sorted([(t, "dflt-a", ("dflt", "b")) for t in ("basic", "pydantic", "default")] * 2 +
+                      [(t, 7, "model-default") for t in ("basic", "pydantic", "default")], key=repr)
+        o["seen"] = sorted(o["seen"], key=repr)
         got = [(t, a, tuple(b) if isinstance(b, (list, tuple)) else b) for t, a, b in o["seen"]]
         if got != want:
             res.bad("impl", "a job enqueued without arguments did not run the actor whose parameters all have defaults, with those "
